@@ -1,5 +1,36 @@
 """C12 reciprocal: PROV-CTX and R-SIGN (the magnitude is rounded then re-signed: Floor/Ceiling must be mirrored)."""
+import re
 from props import roots
+from rules import table as TB
+
+
+def sign_carrying_outcomes(rep, F, fns, rule='R-TABLE'):
+    """"the reciprocal has the sign of x": every return of the entry point is either x itself (the
+    0 / 1 shortcut) or passes through the sign-copying step with sign(x) (must-pass-through)"""
+    n = 0
+    for fn in fns:
+        if fn.name.split('::')[-1] != 'inverse_with_context':
+            continue
+        key = fn.key + ':every-return-carries-sign'
+        try:
+            paths = TB.PathEnum(F, fn, max_paths=64).run()
+        except TB.Undecided as e:
+            rep.undecided(rule, key, str(e), fn.where())
+            continue
+        n += 1
+        bad = []
+        for atoms, out in paths:
+            nf = TB.show(TB.strip_refs(out))
+            ok = nf == 'arg1' or re.match(r'^take_with_sign\(.*,sign\(arg1\)\)$', nf) is not None
+            if not ok:
+                bad.append(([(TB.show(a[0])[:30], a[1]) for a in atoms][-2:], nf[:120]))
+        if bad:
+            rep.violation(rule, key, '%d of %d return paths neither return x nor re-attach sign(x): e.g. under %s the result is %s (a negative x would get a positive reciprocal)'
+                          % (len(bad), len(paths), bad[0][0], bad[0][1]), fn.where())
+        else:
+            rep.ok(rule, key, 'all %d return paths are x itself or take_with_sign(.., sign(x))' % len(paths), fn.where())
+    return n
+
 
 
 def run(ctx):
@@ -15,6 +46,8 @@ def run(ctx):
     n1, n2 = roots.sign_and_ctx_rules(rep, F, fns, sink_pat=r'inverse::impl_inverse_uint_scale$')
     rep.floor('PROV-CTX final sinks', n1, 2)
     rep.floor('R-SIGN instances', n2, 3)
+    n3 = sign_carrying_outcomes(rep, F, fns)
+    rep.floor('entry points with sign-carrying returns', n3, 1)
     if ctx.tier == 'thorough':
         from rules import witness
         nw = witness.run(rep, r'^W1')
